@@ -344,7 +344,7 @@ graphql_client = { path = "%s/graphql_client" }
                 if fn.startswith("case_") and fn not in wanted:
                     os.remove(os.path.join(d, "src", fn))
             mods = "\n".join("pub mod case_%s;" % c for c in by_shard[i])
-            write_if_changed(os.path.join(d, "src", "lib.rs"), "#![allow(warnings)]\npub mod scalars { pub type Date = String; }\n" + mods + "\n")
+            write_if_changed(os.path.join(d, "src", "lib.rs"), "pub mod scalars { pub type Date = String; }\n" + mods + "\n")
         write_if_changed(os.path.join(self.dir, "Cargo.toml"), '''[workspace]
 resolver = "2"
 members = [%s]
